@@ -528,7 +528,7 @@ theorem decodeSheet_enc (ctx : Ctx) (pre1 pre2 : List Seg) (dims : Bytes) (dw : 
   simpa using specCells_ne_empty ctx _ _ c hc
 
 
-theorem sparsePre_of_gridSorted (S : List (Nat × Nat × Val)) (h : GridSorted S) : Range.sparsePre S := by
+theorem sparsePreSorted_of_gridSorted (S : List (Nat × Nat × Val)) (h : GridSorted S) : Range.sparsePreSorted S := by
   obtain ⟨hs, hg⟩ := h
   cases S with
   | nil => trivial
@@ -556,6 +556,9 @@ theorem sparsePre_of_gridSorted (S : List (Nat × Nat × Val)) (h : GridSorted S
     · intro c hc c' hc'
       have := (hg c' hc').2; unfold Range.U32; omega
 
+
+theorem sparsePre_of_gridSorted (S : List (Nat × Nat × Val)) (h : GridSorted S) : Range.sparsePre S :=
+  Range.sparsePre_of_old S (sparsePreSorted_of_gridSorted S h)
 
 theorem gridSorted_le_last (S : List (Nat × Nat × Val)) (hne : S ≠ []) (h : GridSorted S) :
     ∀ c ∈ S, c.1 ≤ (S.getLast hne).1 := by
@@ -930,41 +933,8 @@ theorem newReader_total (bs : Bytes) : newReader bs ≠ .outOfFuel ∧
   | panic s => exact ⟨by simp, fun _ _ hh => by cases hh⟩
   | outOfFuel => exact absurd h1 a1
 
-theorem sparse_fold_ne_fuel {α : Type} [Inhabited α] (rs cs cols len : Nat) :
-    ∀ (cells : List (Nat × Nat × α)) (acc : Res (List α)), acc ≠ .outOfFuel →
-      cells.foldl (Range.sparseStep rs cs cols len) acc ≠ .outOfFuel
-  | [], acc, h => h
-  | c :: rest, acc, h => by
-    rw [List.foldl_cons]
-    apply sparse_fold_ne_fuel rs cs cols len rest
-    unfold Range.sparseStep
-    split
-    · split
-      · simp
-      · simp only; split <;> simp
-    · rename_i other hno
-      exact h
-
 theorem fromSparse_ne_fuel {α : Type} [Inhabited α] (cells : List (Nat × Nat × α)) :
-    Range.fromSparse cells ≠ .outOfFuel := by
-  unfold Range.fromSparse
-  split
-  · simp
-  · simp only
-    split
-    · simp
-    · split
-      · simp
-      · split
-        · simp
-        · rename_i c0 rest _ _ _
-          have := sparse_fold_ne_fuel (α := α)
-          split
-          · simp
-          · simp
-          · simp
-          · rename_i hf
-            exact absurd hf (sparse_fold_ne_fuel _ _ _ _ _ _ (by simp))
+    Range.fromSparse cells ≠ .outOfFuel := Range.fromSparse_ne_fuel cells
 
 /-! ### no panics: every short or inconsistent record is an `Err` -/
 
